@@ -1,15 +1,42 @@
 package main
 
 import (
+	"flag"
 	"fmt"
-	"golang.org/x/tools/go/packages"
-	"golang.org/x/tools/go/ssa"
-	"golang.org/x/tools/go/ssa/ssautil"
+	"os"
+	"strconv"
 )
 
 func main() {
-	_ = packages.Load
-	_ = ssa.NaiveForm
-	_ = ssautil.AllPackages
-	fmt.Println("ok")
+	if len(os.Args) < 2 {
+		fmt.Fprintln(os.Stderr, "usage: gowp check --prop <id> [--tier quick|thorough] [--repo /repo] [--verif /verif]")
+		os.Exit(2)
+	}
+	switch os.Args[1] {
+	case "solverd":
+		solverdMain()
+		return
+	case "check", "ledger":
+		startSpawner()
+		fs := flag.NewFlagSet("check", flag.ExitOnError)
+		prop := fs.String("prop", "", "property id")
+		tier := fs.String("tier", "", "quick or thorough")
+		repo := fs.String("repo", "/repo", "repository")
+		verif := fs.String("verif", "/verif", "verification directory")
+		verbose := fs.Bool("v", false, "verbose")
+		only := fs.String("only", "", "restrict to functions whose name contains this")
+		fs.Parse(os.Args[2:])
+		if *tier == "" {
+			*tier = os.Getenv("VERIF_TIER")
+		}
+		if *tier == "" {
+			*tier = "quick"
+		}
+		seed, _ := strconv.ParseInt(os.Getenv("VERIF_SEED"), 10, 64)
+		opt := Options{Prop: *prop, Tier: *tier, Repo: *repo, VerifDir: *verif, Seed: seed, Verbose: *verbose, Only: *only, WriteLed: os.Args[1] == "ledger"}
+		os.Exit(RunCheck(opt))
+	default:
+		fmt.Fprintln(os.Stderr, "unknown command", os.Args[1])
+		os.Exit(2)
+	}
 }
